@@ -21,6 +21,15 @@ cli  <fwd> <rev> <e> <min> <max> <delta> <full> [<circ> <frag>] <tpl>      (defa
 byte strings in hex.
 
 ```
+conc   [race] <g> <r> <fwd> <rev> <ef> <er> <min> <max> <ext> <full> <circ> <n> n × <tpl>[,<tpl>...]
+       -> the results of the `pcr` cases of the n batches, joined by " ; " (each call of the worker closure alone; the harness
+          repeats the calls from g goroutines sharing the closure, r rounds, and demands the same answers)
+concli [race] <r> <fwd> <rev> <e> <min> <max> <delta> <full> <circ> <frag> <n> n × <tpl>
+       -> the results of the `cli` cases of the n templates, joined by " ; " (each template alone through CLIPCR; the harness
+          then sends the n templates through one CLIPCR, r rounds)
+```
+
+```
 seqbuf <circ> <tpl>[,<tpl>...]
        -> per template ("|") seqlen/circular/datsiz/<the datsiz codes of the C data buffer, in hex ("-" = none)> after
           MakeApatSequence(template, circ, <the structure recycled from the previous template>) (`recycleChain`)
@@ -112,9 +121,8 @@ def runCli (fw rv e mn mx delta full circ frag tpl : String) : String :=
           if s.isEmpty then "-" else ",".intercalate s
   | _, _, _, _, _, _, _, _, _, _ => "bad-op"
 
-def run (line : String) : String :=
-  match words line with
-  | ["pcr", fw, rv, ef, er, mn, mx, ext, full, circ, tpls] =>
+/-- one `pcr` case: `PCRSlice` on a batch of templates -/
+def runPcr (fw rv ef er mn mx ext full circ tpls : String) : String :=
     match unhex fw, unhex rv, ef.toNat?, er.toNat?, mn.toInt?, mx.toInt?, ext.toInt?, bool? full, bool? circ, splitTpls tpls with
     | some fw, some rv, some ef, some er, some mn, some mx, some ext, some full, some circ, some tpls =>
       if ef > 63 || er > 63 then "bad-op"
@@ -129,6 +137,32 @@ def run (line : String) : String :=
           | .ok per =>
             showPer fw rv per
     | _, _, _, _, _, _, _, _, _, _ => "bad-op"
+
+/-- the sub-cases of a `conc` / `concli` line, each answered alone; `none`: a malformed sub-case -/
+def concJoin (n : String) (subs : List String) (one : String → String) : String :=
+  match n.toNat? with
+  | some n =>
+    let rs := subs.map one
+    if rs.length = n ∧ n ≥ 1 ∧ ¬ rs.contains "bad-op" then " ; ".intercalate rs else "bad-op"
+  | none => "bad-op"
+
+def runConc : List String → String
+  | _g :: _r :: fw :: rv :: ef :: er :: mn :: mx :: ext :: full :: circ :: n :: batches =>
+    concJoin n batches (runPcr fw rv ef er mn mx ext full circ)
+  | _ => "bad-op"
+
+def runConcli : List String → String
+  | _r :: fw :: rv :: e :: mn :: mx :: delta :: full :: circ :: frag :: n :: tpls =>
+    concJoin n tpls (runCli fw rv e mn mx delta full circ frag)
+  | _ => "bad-op"
+
+def run (line : String) : String :=
+  match words line with
+  | "conc" :: "race" :: rest => runConc rest
+  | "conc" :: rest => runConc rest
+  | "concli" :: "race" :: rest => runConcli rest
+  | "concli" :: rest => runConcli rest
+  | ["pcr", fw, rv, ef, er, mn, mx, ext, full, circ, tpls] => runPcr fw rv ef er mn mx ext full circ tpls
   | ["frag", fw, rv, e, mn, mx, ext, full, minsize, length, overlap, tpl] =>
     match unhex fw, unhex rv, e.toNat?, mn.toInt?, mx.toInt?, ext.toInt?, bool? full, minsize.toInt?, length.toInt?, overlap.toInt?, unhex tpl with
     | some fw, some rv, some e, some mn, some mx, some ext, some full, some minsize, some length, some overlap, some tpl =>
